@@ -275,7 +275,7 @@ Qed.
    neighbours, every dynamic neighbour in the table has a live connection *)
 Lemma step_keys g o : keys_ok g -> keys_ok (fst (step_op g o)).
 Proof.
-  unfold keys_ok. intro Hk. destruct o as [a r|a r|a b|a|a|a]; cbn [step_op].
+  unfold keys_ok. intro Hk. destruct o as [a r|a r|a b|a|a|a|a r]; cbn [step_op].
   - unfold accept_connection. destruct (lookup a (gl_peers g)) as [p|].
     + destruct (pe_admin_down p); [exact Hk|]. destruct (conn_of p r); [exact Hk|].
       cbn [fst set_peers gl_peers]. apply nodup_update. exact Hk.
@@ -291,12 +291,19 @@ Proof.
       [apply nodup_remove|apply nodup_update]; exact Hk.
   - destruct (lookup a (gl_peers g)) as [p|]; [|exact Hk]. cbn [fst set_peers gl_peers]. apply nodup_update. exact Hk.
   - cbn [fst set_peers gl_peers]. apply nodup_remove. exact Hk.
+  - set (g1 := set_peers g (remove a (gl_peers g))).
+    assert (Hk1 : NoDup (map fst (gl_peers g1))) by (apply nodup_remove; exact Hk).
+    unfold accept_connection. destruct (lookup a (gl_peers g1)) as [p|].
+    + destruct (pe_admin_down p); [exact Hk1|]. destruct (conn_of p r); [exact Hk1|].
+      cbn [fst set_peers gl_peers]. apply nodup_update. exact Hk1.
+    + destruct (find (group_matches a) (gl_groups g1)); [|exact Hk1].
+      cbn [fst set_peers gl_peers]. apply nodup_update. exact Hk1.
 Qed.
 
 Lemma step_dynamic g o :
   keys_ok g -> dynamic_have_connection g -> dynamic_have_connection (fst (step_op g o)).
 Proof.
-  unfold dynamic_have_connection. intros Hk Hinv. destruct o as [a r|a r|a b|a|a|a]; cbn [step_op].
+  unfold dynamic_have_connection. intros Hk Hinv. destruct o as [a r|a r|a b|a|a|a|a r]; cbn [step_op].
   - destruct (accept_connection g a r) as [|g' s] eqn:Ha; [exact Hinv|]. cbn [fst].
     destruct (C16_session_fields_from_config g g' a r s Ha) as (p & Hl & _ & Hc & Hoth & _).
     intros b q Hq Hd. destruct (addr_dec b a) as [->|Hne].
@@ -338,6 +345,18 @@ Proof.
     cbn [fst set_peers gl_peers]. intros c q Hq Hd. destruct (addr_dec c a) as [->|Hne].
     + rewrite lookup_remove_same in Hq by exact Hk. discriminate Hq.
     + rewrite lookup_remove_other in Hq by exact Hne. exact (Hinv c q Hq Hd).
+  - (* delete_peer, then a new connection while the old tasks end *)
+    set (g1 := set_peers g (remove a (gl_peers g))).
+    assert (Hinv1 : forall c q, lookup c (gl_peers g1) = Some q -> pe_delete q = true ->
+                                pe_conn_active q = true \/ pe_conn_passive q = true).
+    { intros c q Hq Hd. cbn [g1 set_peers gl_peers] in Hq. destruct (addr_dec c a) as [->|Hne].
+      - rewrite lookup_remove_same in Hq by exact Hk. discriminate Hq.
+      - rewrite lookup_remove_other in Hq by exact Hne. exact (Hinv c q Hq Hd). }
+    destruct (accept_connection g1 a r) as [|g' s] eqn:Ha; [exact Hinv1|]. cbn [fst].
+    destruct (C16_session_fields_from_config g1 g' a r s Ha) as (p & Hl & _ & Hc & Hoth & _).
+    intros c q Hq Hd. destruct (addr_dec c a) as [->|Hne].
+    + rewrite Hl in Hq. injection Hq as <-. destruct r; cbn [conn_of] in Hc; auto.
+    + rewrite (Hoth c Hne) in Hq. exact (Hinv1 c q Hq Hd).
 Qed.
 
 Lemma C16_dynamic_peers_have_connections :
@@ -505,4 +524,25 @@ Lemma C16_overlapping_groups_order_dependent :
 Proof.
   exists (with_groups ex_global [ex_group; ex_group2]), ex_addr.
   vm_compute. do 6 eexists. repeat split.
+Qed.
+
+(* Record of finding C16-5 (repaired): before the identity check, the end of
+   PeerSession::run of a deleted neighbour's task treated whatever record it
+   found at its address as its own; a dynamic neighbour admitted in between was
+   removed although its connection was alive. *)
+Definition stale_task_end_unchecked (g : global) (a : ipaddr) : global :=
+  match lookup a (gl_peers g) with
+  | Some p => if pe_delete p then set_peers g (remove a (gl_peers g)) else g
+  | None => g
+  end.
+
+Lemma C16_stale_task_removes_live_dynamic_peer_refuted :
+  exists (g g' : global) (a : ipaddr) (s : session) (p : peer),
+    fst (step_op g (ODeleteReconnect a RPassive)) = g'
+    /\ snd (step_op g (ODeleteReconnect a RPassive)) = Some (Some s)
+    /\ lookup a (gl_peers g') = Some p /\ pe_conn_passive p = true
+    /\ lookup a (gl_peers (stale_task_end_unchecked g' a)) = None.
+Proof.
+  exists (with_groups ex_global [ex_group2]).
+  eexists _, ex_addr. vm_compute. do 2 eexists. repeat split; reflexivity.
 Qed.
